@@ -30,7 +30,7 @@ FINDING_END_SPACING = 'inline-end-spacing-overflow'
 FINDING_END_RESERVED = 'inline-end-spacing-reserved-early'
 FINDING_STALE_WIDTH = 'inline-box-width-stale'
 FINDING_BOUNDARY = 'waiting-box-boundary-opportunity-unused'
-FINDING_STALE_PRESERVED = 'preserved-line-break-flag-stale-after-rebreak'
+FINDING_NOWRAP_COLLAPSED = 'nowrap-breaks-after-collapsed-space'
 FINDING_FLOAT_INDENT = 'float-gap-text-indent-later-lines'
 FINDING_FLOAT_BAND = 'float-align-width-not-of-line-box'
 FINDING_SOFT_HYPHEN = 'soft-hyphen-forces-overflowing-line'
@@ -900,6 +900,107 @@ def inline_para_html(spec):
     return f'<p style="{css}">{inline_html(spec["items"])}</p>'
 
 
+# ----- from the source text to the line (white-space processing + collapsed-space flags + layout)
+
+def gen_src_text(rng, ws):
+    """Raw text of a text node: words, single / multiple spaces, newlines, leading / trailing white space."""
+    n = rng.choice([0, 1, 1, 2, 2, 3, 4])
+    if n == 0:
+        return rng.choice([' ', ' ', '  ', '\n', ' \n ']) if ws != 'x' else ' '
+    out = rng.choice(['', '', ' ', '  ', '\n'])
+    for i in range(n):
+        out += gen_word(rng, long_ok=False)[:rng.randint(1, 5)]
+        if i < n - 1:
+            out += rng.choice([' ', ' ', ' ', '  ', '\n', ' \n', ' \n '])
+    return out + rng.choice(['', '', ' ', ' ', '  ', '\n'])
+
+
+def gen_src_items(rng, ws, depth, unit, budget):
+    """Inline content as written in the source: ['t', raw text] | ['b', left, right, how, [children]]."""
+    items = []
+    for _ in range(rng.randint(1, 4)):
+        if budget[0] <= 0:
+            break
+        budget[0] -= 1
+        if depth > 0 and rng.random() < 0.45:
+            r = rng.random()
+            if r < 0.35:
+                # an element holding only white space (its space may collapse away: ' <b> </b>', ' <b> <u> </u></b>')
+                kids = [['t', rng.choice([' ', ' ', '  ', '\n'])]]
+                if rng.random() < 0.3:
+                    kids = [['t', ' '], ['b', Fraction(0), Fraction(0), 'padding', [['t', ' ']]]]
+                elif rng.random() < 0.2:
+                    kids = [['t', gen_word(rng, long_ok=False)[:3] + ' '], ['b', Fraction(0), Fraction(0), 'padding', [['t', ' ']]], ['t', ' ']]
+            else:
+                kids = gen_src_items(rng, ws, depth - 1, unit, budget)
+            spaced = rng.random() < 0.2
+            left = rng.choice([0, 1, 2]) * unit / 2 if spaced else Fraction(0)
+            right = rng.choice([0, 1, 2, 4]) * unit / 2 if spaced else Fraction(0)
+            items.append(['b', Fraction(left), Fraction(right), rng.choice(['padding', 'margin']), kids])
+        else:
+            items.append(['t', gen_src_text(rng, ws)])
+    merged = []
+    for item in items:                      # adjacent texts are one text node of the source
+        if item[0] == 't' and merged and merged[-1][0] == 't':
+            merged[-1][1] += item[1]
+        else:
+            merged.append(item)
+    return merged
+
+
+def src_html(items):
+    out = ''
+    for item in items:
+        if item[0] == 't':
+            out += html_escape(item[1])
+        else:
+            _, left, right, how, kids = item
+            prop = 'margin' if how == 'margin' else 'padding'
+            out += (f'<span style="{prop}-left:{float(left)}px;{prop}-right:{float(right)}px">'
+                    f'{src_html(kids)}</span>')
+    return out
+
+
+def src_wire(items):
+    return [['t', enc(i[1])] if i[0] == 't' else ['b', i[1], i[2], bool(i[1] or i[2]), src_wire(i[4])] for i in items]
+
+
+def gen_source_spec(rng):
+    fs = Fraction(rng.choice([5, 8, 10, 10, 16]))
+    ws = rng.choice(['normal', 'normal', 'normal', 'nowrap', 'pre-line', 'pre-line', 'pre-wrap', 'pre'])
+    items = gen_src_items(rng, ws, 2, fs, [rng.randint(2, 8)])
+    width = Fraction(rng.randint(2, 30), 2) * fs
+    return {'src': items, 'fs': fs, 'width': width, 'ws': ws, 'all': rng.choice(['start', 'start', 'center', 'end']),
+            'last': rng.choice(['auto', 'auto', 'start', 'end']), 'ml': Fraction(rng.randint(0, 20), 4)}
+
+
+def source_para_html(spec):
+    css = (f'font-size:{float(spec["fs"])}px;width:{float(spec["width"])}px;text-align-all:{spec["all"]};'
+           f'text-align-last:{spec["last"]};margin-left:{float(spec["ml"])}px;white-space:{spec["ws"]}')
+    return f'<p style="{css}">{src_html(spec["src"])}</p>'
+
+
+def render_source_paragraphs(specs):
+    """-> list of (spec, real line children (flagged nodes) | None, block | None, canonical lines | None)."""
+    html = f'<style>{PAGE_CSS}</style>' + ''.join(source_para_html(s) for s in specs)
+    try:
+        before, pages = ic.pipeline_trees(html, enc)
+    except Exception as exc:  # noqa: BLE001
+        if len(specs) == 1:
+            before, _ = ic.pipeline_trees(html, enc, layout=False)
+            return [(specs[0], before[0] if before else None, FailedBlock(specs[0]), f'err:{type(exc).__name__}')]
+        return [entry for spec in specs for entry in render_source_paragraphs([spec])]
+    laid = ic.laid_out_paragraphs(pages)
+    if len(before) != len(specs) or len(laid) != len(specs):
+        raise RuntimeError(f'paragraph count: {len(specs)} specs, {len(before)} before, {len(laid)} after layout')
+    out = []
+    for spec, nodes, (block, lines) in zip(specs, before, laid):
+        canon = [[snap(line.position_x), snap(line.position_y), snap(line.width), snap(line.height),
+                  [ic.frag_wire(child, enc, snap) for child in line.children]] for line in lines]
+        out.append((spec, nodes, block, canon))
+    return out
+
+
 def render_inline_paragraphs(specs):
     """-> list of (spec, node wire | None, block, canonical lines)."""
     html = f'<style>{PAGE_CSS}</style>' + ''.join(inline_para_html(s) for s in specs)
@@ -960,9 +1061,19 @@ def extents_violation(frags, x0):
     return None
 
 
+def unflag(nodes):
+    """The nodes without their `trailing_collapsible_space` flags ((f node) -> node), at every depth."""
+    out = []
+    for node in nodes:
+        while node[0] == 'f':
+            node = node[1]
+        out.append(node if node[0] == 't' else [*node[:4], unflag(node[4]), *node[5:]])
+    return out
+
+
 def nodes_safe(nodes):
     """No start spacing; every box with end spacing ends with a text leaf that does not end with a space."""
-    for node in nodes:
+    for node in unflag(nodes):
         if node[0] == 'b':
             _, left, right, _, kids = node
             if Fraction(left) != 0:
@@ -980,7 +1091,7 @@ def frag_empty(f):
 
 
 def node_leaves(nodes):
-    for node in nodes:
+    for node in unflag(nodes):
         if node[0] == 't':
             yield dec(node[1])
         else:
@@ -994,7 +1105,7 @@ def has_glue(nodes):
 
 
 def no_spacing(nodes):
-    return all(n[0] == 't' or (Fraction(n[1]) == 0 and Fraction(n[2]) == 0 and no_spacing(n[4])) for n in nodes)
+    return all(n[0] == 't' or (Fraction(n[1]) == 0 and Fraction(n[2]) == 0 and no_spacing(n[4])) for n in unflag(nodes))
 
 
 def greedy_domain(nodes):
@@ -1043,15 +1154,20 @@ def forced_breaks(nodes, canon):
     full = ''.join(frag_text_node(n) for n in nodes)
     pos, ends = 0, []
     for line in canon:
+        solid = False
         for c in ''.join(frag_text(f) for f in line[4]):
             if c in ' \n':
                 continue
+            solid = True
             while pos < len(full) and full[pos] != c:
                 pos += 1
             pos += 1
-        ends.append(pos)
+        ends.append(pos if solid else None)
     out = []
     for i, end in enumerate(ends):
+        if end is None:
+            out.append(None)       # a line of preserved spaces only: where it sits in the text is not decided here
+            continue
         nxt = end
         while nxt < len(full) and full[nxt] == ' ':
             nxt += 1
@@ -1071,20 +1187,15 @@ def inline_violations(nodes, width, canon, ws='normal', place=None):
         cbx, align_all, align_last = Fraction(place[0]), place[1], place[2]
         for i, ((lx, ly, lw, lh, frags), forced) in enumerate(zip(canon, forced_breaks(nodes, canon))):
             lx, lw = Fraction(lx), Fraction(lw)
-            if not frags or Fraction(lh) == 0:
+            if not frags or Fraction(lh) == 0 or forced is None:
                 continue
             align = resolve_align({'all': align_all, 'last': align_last, 'rtl': False}, forced)
             free = width - lw
             want = cbx + (0 if free <= 0 else {'left': 0, 'right': free, 'center': free / 2, 'justify': 0}[align])
             if lx != want:
-                # aligned like a last line without being one: known finding
-                # preserved-line-break-flag-stale-after-rebreak (excused only where the model shows the same)
-                as_last = resolve_align({'all': align_all, 'last': align_last, 'rtl': False}, True)
-                alt = cbx + (0 if free <= 0 else {'left': 0, 'right': free, 'center': free / 2, 'justify': 0}[as_last])
-                finding = FINDING_STALE_PRESERVED if (not forced and lx == alt) else None
                 out.append((f'line {i} starts at x={float(lx)}, text-align {align} '
                             f'({"last line or forced break" if forced else "not a last line"}) of a {float(lw)} wide line in '
-                            f'[{float(cbx)}, {float(cbx + width)}] puts it at {float(want)}', finding))
+                            f'[{float(cbx)}, {float(cbx + width)}] puts it at {float(want)}', None))
     y = None
     for i, (lx, ly, lw, lh, frags) in enumerate(canon):
         lx, ly, lw, lh = Fraction(lx), Fraction(ly), Fraction(lw), Fraction(lh)
@@ -1114,8 +1225,11 @@ def inline_violations(nodes, width, canon, ws='normal', place=None):
         while got_lines and got_lines[-1] == '':
             got_lines.pop()
         if got_lines != want_lines:
+            # known finding nowrap-breaks-after-collapsed-space: a box whose trailing space collapsed away
+            # (trailing_collapsible_space) is followed by a break opportunity even under nowrap
+            flagged = '(f ' in sx.dumps(nodes)
             out.append((f'white-space:{ws}: lines {got_lines[:8]!r} are not the text between preserved line breaks '
-                        f'{want_lines[:8]!r}', None))
+                        f'{want_lines[:8]!r}', FINDING_NOWRAP_COLLAPSED if (flagged and ws == 'nowrap') else None))
         return out
     if not greedy_domain(nodes) or ws not in COLLAPSE:
         return out                  # preserved spaces at the end of a line hang (pre-wrap)
@@ -1172,6 +1286,8 @@ def vertical_aligns(nodes):
 
 
 def frag_text_node(node):
+    if node[0] == 'f':
+        return frag_text_node(node[1])
     return dec(node[1]) if node[0] == 't' else ''.join(frag_text_node(k) for k in node[4])
 
 
@@ -1720,6 +1836,11 @@ class C09(PropCheck):
         'boxes); get_next_linebox with excluded shapes for nested inline boxes (Model/LineFloatsInline = '
         'inline_min_content_width with the resume skip_stack + avoid_collisions + split_inline_box); '
         'count_expandable_spaces / add_word_spacing on atomic and out-of-flow boxes that hold text of their own',
+        'modelled, not verified (round 4): build.process_whitespace on trees of text and inline boxes (the TextBox '
+        'branch is C08\'s Bx.processText, imported unchanged) run once per element, and the first loop of '
+        'build.inline_in_block (emptied text boxes removed, trailing_collapsible_space) — Model/InlineSource; the '
+        'last_letter is True / trailing_collapsible_space path of split_inline_box (Node.flagged, Last.collapsed); '
+        'the source-nodes / source-doc sections feed the model with the source text, not with the built tree',
     )
     assumptions = (
         'no soft hyphen in the texts; dictionary hyphenation only in the hyphenation section (lang=en)',
@@ -1748,12 +1869,13 @@ class C09(PropCheck):
         self._sec_preferred(run)
         self._sec_floats(run)
         self._sec_float_inline(run)
+        self._sec_source(run)
 
     def _sec_regressions(self, run):
         sec = run.section(
             'regressions',
             'corpus first: the inputs of the repaired findings (negative-width-unbroken, '
-            'vertical-align-top-bottom-subtree), deterministic, compared with the model through the protocol of the '
+            'vertical-align-top-bottom-subtree, preserved-line-break-flag-stale-after-rebreak), deterministic, compared with the model through the protocol of the '
             'section named in meta["as"] and judged at full strength (a fixed: entry suppresses nothing); '
             'non-trivial = every case')
         spec = regression_negative_width_spec()
@@ -1771,6 +1893,20 @@ class C09(PropCheck):
                     meta={'as': 'split-first-line', 'text': args[0], 'ws': 'normal', 'wb': wb, 'ow': ow, 'fs': '10',
                           'width': '-10', 'ils': True, 'minimum': False},
                     nontrivial=True, tags=['negative-width-unbroken'])
+        for name in REGRESSION_INLINE:
+            body = corpus_body(name)
+            before, pages = ic.pipeline_trees(f'<style>{PAGE_CSS}</style>' + body, enc)
+            (block, lines), = ic.laid_out_paragraphs(pages)
+            canon = [[snap(line.position_x), snap(line.position_y), snap(line.width), snap(line.height),
+                      [ic.frag_wire(child, enc, snap) for child in line.children]] for line in lines]
+            style = block.style
+            spec = {'ws': style['white_space'], 'fs': Fraction(style['font_size']), 'all': style['text_align_all'],
+                    'last': style['text_align_last']}
+            cbx, y0, width = block.content_box_x(), block.content_box_y(), block.width
+            sec.add(inline_line(spec, before[0], cbx, y0, width), sx.dumps(canon),
+                    meta={'as': 'inline-doc', 'nodes': sx.dumps(before[0]), 'width': str(Fraction(width)), 'html': body,
+                          'inline': True, 'ws': spec['ws'], 'place': [str(Fraction(cbx)), spec['all'], spec['last']]},
+                    nontrivial=True, tags=[name.replace('_', '-')])
         for html, index, proto, impl in render_vertical_lines(REGRESSION_VERTICAL):
             sec.add(proto, impl, meta={'as': 'line-vertical', 'html': html, 'line': index, 'vertical': True},
                     nontrivial=True, tags=['vertical-align-top-bottom-subtree'])
@@ -2009,6 +2145,44 @@ class C09(PropCheck):
                     'wider-than-gap', 'text-indent', 'layout-error']
         run.extra['float_lines_cases_never_hit'] = [t for t in expected if not sec.tags.get(t)]
 
+    def _sec_source(self, run):
+        sec_nodes = run.section(
+            'source-nodes',
+            'from the source to the line box: the real children of the line box of built paragraphs (texts after '
+            'process_whitespace, emptied text boxes removed, trailing_collapsible_space flags, leading collapsed space '
+            'dropped) vs the model of process_whitespace / inline_in_block fed with the source text (raw texts with '
+            'runs of spaces, newlines, white-space-only elements, nesting), every white-space value; non-trivial = a '
+            'box carries trailing_collapsible_space or a text box was emptied')
+        sec_doc = run.section(
+            'source-doc',
+            'the same paragraphs rendered: per line and per box x, width, text vs the model fed with the source '
+            '(white-space processing + collapsed-space break opportunities + split_inline_box); non-trivial = at '
+            'least two lines')
+        rng = run.rng
+        for _ in range(run.n(60, 900)):
+            specs = [gen_source_spec(rng) for _ in range(12)]
+            for spec, nodes, block, canon in render_source_paragraphs(specs):
+                if nodes is None:
+                    continue          # no line box at all (nothing but collapsed white space)
+                src = src_wire(spec['src'])
+                impl_nodes = sx.dumps(nodes)
+                flagged = '(f ' in impl_nodes
+                html = source_para_html(spec)
+                sec_nodes.add(sx.line('snodes', src, spec['ws']), impl_nodes,
+                              meta={'html': html, 'inline': True, 'ws': spec['ws'], 'source': True},
+                              nontrivial=flagged or impl_nodes.count('(t ') < sx.dumps(src).count('(t '),
+                              tags=[spec['ws']] + (['trailing-collapsible-space'] if flagged else []))
+                cbx, y0, width = block.content_box_x(), block.content_box_y(), block.width
+                failed = isinstance(canon, str)
+                sec_doc.add(sx.line('spara', src, spec['ws'], 'normal', 'normal', spec['fs'], spec['fs'], Fraction(cbx),
+                                    Fraction(width), Fraction(0), spec['all'], spec['last'], Fraction(y0)),
+                            canon if failed else sx.dumps(canon),
+                            meta={'nodes': impl_nodes, 'width': str(Fraction(width)), 'html': html, 'inline': True,
+                                  'ws': spec['ws'], 'place': [str(Fraction(cbx)), spec['all'], spec['last']]},
+                            nontrivial=not failed and len(canon) >= 2,
+                            tags=[spec['ws'], canon if failed else f'lines{min(len(canon), 6)}'] +
+                            (['trailing-collapsible-space'] if flagged else []))
+
     def _sec_float_inline(self, run):
         sec = run.section(
             'float-inline-lines',
@@ -2198,7 +2372,7 @@ class C09(PropCheck):
                 meta['priors'] = list(getattr(self, '_hyphen_creators', [])[:meta.get('n_creators', 0)])
                 what += f' (after {len(meta["priors"])} earlier calls in the same layout context)'
             return what
-        if d['section'] == 'inline-doc':
+        if d['section'] in ('inline-doc', 'source-doc'):
             if d['impl'].startswith('err:'):
                 return f'layout raised {d["impl"][4:]}'
             place = meta.get('place')
@@ -2308,7 +2482,8 @@ class C09(PropCheck):
             if isinstance(meta, dict) and (meta.get('inline') or meta.get('inline_html')):
                 inline_seeds.append(meta.get('inline_html') or meta['html'])
         inline_broken = bool(inline_seeds) or any(
-            f['kind'] == 'correspondence' and f.get('name') in ('inline-doc', 'float-inline-lines', 'preferred-widths')
+            f['kind'] == 'correspondence' and f.get('name') in ('inline-doc', 'float-inline-lines', 'preferred-widths',
+                                                                'source-nodes', 'source-doc')
             for f in failures)
         for html in inline_seeds[:12]:
             if time.time() > deadline or len([v for v in found if not v.get('finding_id')]) >= 3:
@@ -2365,7 +2540,7 @@ class C09(PropCheck):
                 FINDING_START_SPACING: finding_start_spacing, FINDING_END_SPACING: finding_end_spacing,
                 FINDING_END_RESERVED: finding_end_reserved, FINDING_STALE_WIDTH: finding_stale_width,
                 FINDING_FLOAT_INDENT: finding_float_indent, FINDING_BOUNDARY: finding_boundary,
-                FINDING_STALE_PRESERVED: finding_stale_preserved,
+                FINDING_NOWRAP_COLLAPSED: finding_nowrap_collapsed,
                 FINDING_SOFT_HYPHEN: finding_soft_hyphen, FINDING_FLOAT_BAND: finding_float_band}
 
     def replay(self, data):
@@ -2486,14 +2661,12 @@ def finding_boundary():
     return len(lines) == 1 and lines[0][0] > 75 and ' ' in lines[0][1].strip()
 
 
-def finding_stale_preserved():
-    """white-space:pre-line; width:120px; text-align-last:right; 'uuuu wwwww<span>rrrrr\\nx</span> jjj': the first line
-    'uuuu' (not a last line, no forced break after it) is right-aligned."""
-    html = f'<style>{PAGE_CSS}</style>' + corpus_body('preserved_line_break_flag_stale_after_rebreak')
+def finding_nowrap_collapsed():
+    """white-space:nowrap; width:50px; 'aaa <b> </b>bbb': two lines."""
+    html = f'<style>{PAGE_CSS}</style>' + corpus_body('nowrap_breaks_after_collapsed_space')
     _, pages = ic.pipeline_trees(html, enc)
     (block, lines), = ic.laid_out_paragraphs(pages)
-    first = ''.join(b.text for b in lines[0].descendants() if hasattr(b, 'text'))
-    return len(lines) == 3 and first.strip() == 'uuuu' and Fraction(lines[0].position_x) > Fraction(block.content_box_x())
+    return len(lines) == 2
 
 
 def finding_stale_width():
@@ -2506,6 +2679,9 @@ def finding_stale_width():
     span = lines[0].children[0]
     return Fraction(span.width) != sum(Fraction(c.margin_width()) for c in span.children)
 
+
+# corpus inputs of repaired findings on nested inline boxes (fix 889a2ec)
+REGRESSION_INLINE = ['preserved_line_break_flag_stale_after_rebreak']
 
 REGRESSION_VERTICAL = [
     # repaired finding vertical-align-top-bottom-subtree (fix 5152049): 'dd' was left above the line box
@@ -2717,7 +2893,11 @@ MANIFEST = {
             '(LineFloatsInline, proved equal to the plain nested paragraph without floats), and with atomic boxes holding '
             'spaces of their own in justified lines; the white-space tuples of can_break_inside, split_inline_box and '
             'inline_line_widths are regenerated from the source and proved to agree with split_first_line; new finding '
-            'waiting-box-boundary-opportunity-unused. Soft hyphens are not modelled (finding '
+            'waiting-box-boundary-opportunity-unused. Round 4: preserved-line-break-flag-stale-after-rebreak repaired (fixed: entry, '
+            'regression theorem and corpus case); the model now starts from the source text (white-space processing and the '
+            'collapsed-space flag trailing_collapsible_space that split_inline_box reads as a break opportunity), new '
+            'finding nowrap-breaks-after-collapsed-space (nested_no_wrap_breaks_only_at_newline_partial needs the '
+            'hypothesis that no box carries the flag). Soft hyphens are not modelled (finding '
             'soft-hyphen-forces-overflowing-line is replayed at document level only). Not modelled: bidi (rtl paragraphs only with normal word-break/overflow-wrap, nested inline '
             'boxes only ltr), floats inside lines, atomic inlines, first-letter, leaders.',
 }
